@@ -120,6 +120,18 @@ func gen(c *hx.Ctx) {
 		c.Emit("wc | %s", strings.Join(ps, " / "))
 		c.Count("one_instant")
 	}
+	// F6 (oracle-only, not covered by the Lean model): the callback leaves through runtime.Goexit; afterwards the object
+	// must be closed for good: IsClosed, C(), WaitUtil, further Close calls with a (counting) callback
+	for _, pre := range []string{"", "0:C ", "0:I ", "0:W0 "} {
+		for _, d := range []int{0, 5} {
+			for _, later := range []string{"Xs2", "Xn", "Xp1", "Xg1"} {
+				for b := 0; b <= 8; b += 2 {
+					c.Emit("wc | %s1:Xg%d 20:I 21:C 22:W5 23:%s 30:I 31:C / %d:%s %d:I 40:W3 / 3:W20 45:Xe0 46:I", pre, d, later, b, later, b+1)
+					c.Count("goexit_callback")
+				}
+			}
+		}
+	}
 	// L3: stress with real goroutines
 	for i := 0; i < c.Budget(4, 40); i++ {
 		c.Emit("stress %d %d %d", c.Rng.Range(2, 8), c.Budget(2000, 10000), c.Rng.U64()>>1)
